@@ -1,7 +1,7 @@
 """Adapters for USLP primary headers, truncated headers and transfer frames."""
 from __future__ import annotations
 
-from .core import outcome, octs, after_pack, rxbuf, decoded, scramble
+from .core import outcome, octs, after_pack, rxbuf, decoded, scramble, owned
 from .probe import decode_other
 
 
@@ -47,7 +47,7 @@ def op_hdr_rt(a):
                 t.frame_len, t.vcf_count_len, t.vcf_count = (t.frame_len + 1) % 65536, 1, 7
         twin(lambda: mk_hdr(h), _mut)
         o = mk_hdr(h)
-        raw = o.pack()
+        raw = owned(o.pack)
 
         def rest():
             d = _hdr_cls(h["trunc"]).unpack(rxbuf(raw, a["sfx"]))
@@ -125,7 +125,7 @@ def op_frame_rt(a):
         fr = mk_frame(f)
         fr.set_frame_len_in_header()
         tr = bool(f["hdr"]["trunc"])
-        raw = fr.pack(truncated=tr, frame_type=_ftype(a["ftype"]))
+        raw = owned(lambda: fr.pack(truncated=tr, frame_type=_ftype(a["ftype"])))
         n = fr.len()
 
         def rest():
